@@ -103,6 +103,12 @@ theorem print_parse_roundtrip_bytes (e : Expr) (hC : Canon ff pf e) (hN : NamesO
       erase e' = erase e :=
   Props.C17b.print_parse_roundtrip_bytes ff pf lexTableOK tableOK e hC hN
 
+theorem parse_complete_bytes (e : Expr) (ps : List Piece) (ha : Adj ps [])
+    (hc : SoyVerif.Lemmas.ParserAdj.chainOK .tInvalid (SoyVerif.Lemmas.ParserAdj.typs (unsp ps)) = true)
+    (hR : SoyVerif.Props.C17.RendersTop pf e (unsp ps)) :
+    ∃ items e', lexAll (spell ps) true = .items items ∧ parseExprEntry pf items = .ok e' ∧ erase e' = erase e :=
+  Props.C17b.parse_complete_bytes pf lexTableOK tableOK e ps ha hc hR
+
 theorem print_injective_bytes (a b : Expr) (ha : Canon ff pf a) (hb : Canon ff pf b)
     (hna : NamesOk ff a = true) (hnb : NamesOk ff b = true) (h : printExpr ff a = printExpr ff b) :
     erase a = erase b :=
@@ -218,6 +224,23 @@ example : ∃ items e', lexAll (printExpr ff0 ex9) true = .items items ∧ parse
 example : ∃ items e', lexAll (printExpr ff0 exKey) true = .items items ∧ parseExprEntry pf0 items = .ok e' ∧
     erase e' = erase exKey :=
   print_parse_roundtrip_bytes ff0 pf0 exKey canon_exKey names_examples.2.2.2.2.2.2.2.2.2
+
+/-- redundant parentheses and other spacing, from bytes: `((1))+ (2 * (3))` is lexed and parsed to `1 + 2 * 3`
+    (`+` needs no space after it; `*` is printed with one) -/
+def ps10 : List Piece :=
+  [.tok tLP, .tok tLP, .tok ⟨.tInteger, [49]⟩, .tok tRP, .tok tRP, .tok ⟨.tAdd, [43]⟩, .sp, .tok tLP, .tok ⟨.tInteger, [50]⟩, .sp,
+   .tok (tOp .mul), .sp, .tok tLP, .tok ⟨.tInteger, [51]⟩, .tok tRP, .tok tRP]
+
+example : spell ps10 = [40, 40, 49, 41, 41, 43, 32, 40, 50, 32, 42, 32, 40, 51, 41, 41] ∧ unsp ps10 = SoyVerif.Inst.C17.ts10 := by decide
+
+theorem adj_ps10 : Adj ps10 [] :=
+  ⟨.lp _, .lp _, tok_int 1 (closer_numEnd (closer_rp _)), .rp _, .rp _, .op .add _ (by decide), .lp _,
+    tok_int 2 (closer_numEnd (closer_sp _)), tok_op lexTableOK .mul _, .lp _, tok_int 3 (closer_numEnd (closer_rp _)),
+    .rp _, .rp _, trivial⟩
+
+example : ∃ items e', lexAll [40, 40, 49, 41, 41, 43, 32, 40, 50, 32, 42, 32, 40, 51, 41, 41] true = .items items ∧
+    parseExprEntry pf0 items = .ok e' ∧ erase e' = erase SoyVerif.Inst.C17.ex10 :=
+  parse_complete_bytes pf0 SoyVerif.Inst.C17.ex10 ps10 adj_ps10 (by decide) SoyVerif.Inst.C17.renders_ex10
 
 /-- the whole loop evaluated by the kernel: print, lex the bytes, parse the items, erase, print -/
 def roundTripBytes (e : Expr) : Option Bytes :=
